@@ -147,7 +147,7 @@ fn enum_c05(tier: &str, r: &mut Rng) -> Vec<Session> {
                     }
                 }
                 n += 1;
-                out.push(Session { columns: cols, lines, bytes: false, id: format!("c05e{}", n), ops });
+                out.push(Session { columns: cols, lines, bytes: false, events_only: false, id: format!("c05e{}", n), ops });
             }
         }
     }
@@ -163,6 +163,660 @@ fn push_cand(r: &mut Rng, ops: &mut Vec<Op>, c: &Call) {
         }
     }
     ops.push(Op::Api(c.clone()));
+}
+
+fn api(c: Call) -> Op {
+    Op::Api(c)
+}
+
+fn sess(id: String, cols: u32, lines: u32, ops: Vec<Op>) -> Session {
+    Session { columns: cols, lines, bytes: false, events_only: false, id, ops }
+}
+
+/// quiet prefix, then for every candidate: snap; candidate; back
+fn fan_out(r: &mut Rng, prefix: Vec<Op>, cands: &[Call], keep: u32, via_parser: bool) -> Vec<Op> {
+    let mut ops = vec![Op::Quiet(true)];
+    ops.extend(prefix);
+    ops.push(Op::Snap);
+    ops.push(Op::Quiet(false));
+    for c in cands {
+        if keep <= 1 || r.below(keep) == 0 {
+            if via_parser {
+                push_cand(r, &mut ops, c);
+            } else {
+                ops.push(api(c.clone()));
+            }
+            ops.push(Op::Back);
+        }
+    }
+    ops
+}
+
+/// C06: every region x cursor row x operation x count, on marker screens (written and sparse).
+fn enum_c06(tier: &str, r: &mut Rng) -> Vec<Session> {
+    let maxl = counts(tier, 4, 7);
+    let keep = counts(tier, 3, 1);
+    let mut out = vec![];
+    let mut n = 0;
+    for lines in 1..=maxl {
+        for cols in [2u32, 3] {
+            let mut cands = vec![Call::Index, Call::ReverseIndex, Call::Linefeed];
+            for p in param_set(lines) {
+                cands.push(Call::InsertLines(p));
+                cands.push(Call::DeleteLines(p));
+            }
+            let margin_args: Vec<Option<u32>> =
+                std::iter::once(None).chain((0..=lines + 1).map(Some)).chain(std::iter::once(Some(9999))).collect();
+            for a in &margin_args {
+                for b in &margin_args {
+                    cands.push(Call::SetMargins(*a, *b));
+                }
+            }
+            for sparse in [false, true] {
+                for (m, decom) in regions(lines) {
+                    for cy in 0..lines {
+                        for cx in [0, cols - 1, cols] {
+                            if let Some(pl) = place(m, decom, cols, cy, cx) {
+                                let mut prefix = fill_markers(cols, lines, sparse);
+                                prefix.extend(region_setup(m, decom));
+                                prefix.extend(pl);
+                                if r.chance(1, 3) {
+                                    prefix.push(api(Call::SetMode(vec![20], false)));
+                                }
+                                n += 1;
+                                out.push(sess(format!("c06e{}", n), cols, lines, fan_out(r, prefix, &cands, keep, true)));
+                            }
+                        }
+                    }
+                }
+            }
+        }
+    }
+    out
+}
+
+fn enum_c07(tier: &str, r: &mut Rng) -> Vec<Session> {
+    let (maxc, maxl) = if tier == "thorough" { (8, 5) } else { (4, 3) };
+    let keep = counts(tier, 2, 1);
+    let mut out = vec![];
+    let mut n = 0;
+    let sel = [None, Some(0), Some(1), Some(2), Some(3), Some(4), Some(5), Some(9999)];
+    for cols in 1..=maxc {
+        for lines in 1..=maxl {
+            let mut cands = vec![];
+            for h in sel {
+                cands.push(Call::EraseInDisplay(h));
+                cands.push(Call::EraseInLine(h));
+            }
+            for p in param_set(cols) {
+                cands.push(Call::EraseCharacters(p));
+            }
+            for (m, decom) in [(None, false), (if lines >= 2 { Some((0, lines - 1)) } else { None }, true),
+                               (if lines >= 3 { Some((1, lines - 1)) } else { None }, false)] {
+                for cy in 0..lines {
+                    for cx in 0..=cols {
+                        if let Some(pl) = place(m, decom, cols, cy, cx) {
+                            let mut prefix = fill_markers(cols, lines, cy % 2 == 1);
+                            prefix.extend(region_setup(m, decom));
+                            prefix.extend(pl);
+                            n += 1;
+                            out.push(sess(format!("c07e{}", n), cols, lines, fan_out(r, prefix, &cands, keep, true)));
+                        }
+                    }
+                }
+            }
+        }
+    }
+    out
+}
+
+/// C13: all single ICH/DCH at every column, plus interleavings on one row.
+fn enum_c13(tier: &str, r: &mut Rng) -> Vec<Session> {
+    let maxc = counts(tier, 5, 9);
+    let mut out = vec![];
+    let mut n = 0;
+    for cols in 1..=maxc {
+        let mut cands = vec![];
+        for p in param_set(cols) {
+            cands.push(Call::InsertCharacters(p));
+            cands.push(Call::DeleteCharacters(p));
+        }
+        for sparse_row in [false, true] {
+            for cx in 0..=cols {
+                let mut prefix = if sparse_row { vec![] } else { fill_markers(cols, 2, false) };
+                if let Some(pl) = place(None, false, cols, 0, cx) {
+                    if sparse_row && cx == cols {
+                        continue;
+                    }
+                    prefix.extend(pl);
+                }
+                n += 1;
+                out.push(sess(format!("c13e{}", n), cols, 2, fan_out(r, prefix, &cands, 1, true)));
+            }
+        }
+    }
+    // interleavings of length <= 4 on the same row
+    let k = counts(tier, 1500, 30000);
+    for i in 0..k {
+        let cols = r.range(1, 7);
+        let mut ops = fill_markers(cols, 1, r.chance(1, 4));
+        let len = r.range(2, 4);
+        for _ in 0..len {
+            ops.push(api(Call::CursorToColumn(Some(r.range(1, cols + 1)))));
+            if r.chance(1, 6) {
+                ops.push(api(Call::Draw("w".into()))); // may reach the pending-wrap column
+            }
+            let c = match r.below(6) {
+                0 | 1 => Call::InsertCharacters(gen::param(r, cols)),
+                2 | 3 => Call::DeleteCharacters(gen::param(r, cols)),
+                4 => Call::EraseInLine(*r.pick(&[None, Some(0), Some(1), Some(2)])),
+                _ => {
+                    ops.push(api(Call::SetMode(vec![4], false)));
+                    let t: String = (0..r.range(1, 2)).map(|_| *r.pick(&['x', '\u{4e2d}', 'y'])).collect();
+                    ops.push(api(Call::Draw(t)));
+                    Call::ResetMode(vec![4], false)
+                }
+            };
+            ops.push(api(c));
+        }
+        // grow afterwards: nothing discarded may come back
+        ops.push(api(Call::Resize(Some(2), Some(cols + 2))));
+        ops.push(api(Call::Display));
+        out.push(sess(format!("c13i{}", i), cols, 1, ops));
+    }
+    out
+}
+
+/// states with margins, DECOM, pending-wrap cursor and a wide character on the cut line
+fn resize_states(r: &mut Rng, cols: u32, lines: u32) -> Vec<Vec<Op>> {
+    let mut out = vec![];
+    for variant in 0..4 {
+        let mut p = fill_markers(cols, lines, variant == 1);
+        if variant >= 2 && lines >= 2 {
+            p.push(api(Call::SetMargins(Some(1), Some(lines.max(2) - if lines > 2 { 1 } else { 0 }))));
+            if variant == 3 {
+                p.push(api(Call::SetMode(vec![6], true)));
+            }
+        }
+        if cols >= 2 {
+            p.push(api(Call::CursorPosition(Some(1), Some(cols - 1))));
+            p.push(api(Call::Draw("\u{4e2d}".into())));
+        }
+        let cy = r.range(1, lines);
+        p.push(api(Call::CursorPosition(Some(cy), Some(cols))));
+        if r.chance(1, 2) {
+            p.push(api(Call::Draw("w".into())));
+        }
+        if r.chance(1, 3) {
+            p.push(api(Call::SaveCursor));
+        }
+        out.push(p);
+    }
+    out
+}
+
+fn enum_c16(tier: &str, r: &mut Rng) -> Vec<Session> {
+    let maxg = counts(tier, 4, 7);
+    let mut out = vec![];
+    let mut n = 0;
+    for cols in 1..=maxg {
+        for lines in 1..=maxg {
+            let mut cands = vec![Call::Resize(None, None)];
+            for l in 1..=lines + 2 {
+                for c in 1..=cols + 2 {
+                    cands.push(Call::Resize(Some(l), Some(c)));
+                }
+                cands.push(Call::Resize(Some(l), None));
+            }
+            for c in 1..=cols + 2 {
+                cands.push(Call::Resize(None, Some(c)));
+            }
+            for prefix in resize_states(r, cols, lines) {
+                n += 1;
+                out.push(sess(format!("c16e{}", n), cols, lines, fan_out(r, prefix, &cands, 1, false)));
+            }
+        }
+    }
+    // resize sequences (shrink then grow in particular), DECCOLM round trip
+    let k = counts(tier, 600, 12000);
+    for i in 0..k {
+        let cols = r.range(1, 7);
+        let lines = r.range(1, 7);
+        let states = resize_states(r, cols, lines);
+        let mut ops = r.pick(&states).clone();
+        let len = counts(tier, 2, 3);
+        for _ in 0..r.range(1, len) {
+            ops.push(api(Call::Resize(Some(r.range(1, lines + 2)), Some(r.range(1, cols + 2)))));
+            if r.chance(1, 5) {
+                ops.push(api(Call::Draw("q".into())));
+            }
+        }
+        ops.push(api(Call::Resize(Some(lines + 2), Some(cols + 2))));
+        if r.chance(1, 4) {
+            ops.push(api(Call::SetMode(vec![3], true)));
+            ops.push(api(Call::Draw("zz".into())));
+            ops.push(api(Call::ResetMode(vec![3], true)));
+        }
+        ops.push(api(Call::Display));
+        out.push(sess(format!("c16s{}", i), cols, lines, ops));
+    }
+    out
+}
+
+fn enum_c18(tier: &str, r: &mut Rng) -> Vec<Session> {
+    let maxw = counts(tier, 20, 140);
+    let mut out = vec![];
+    for w in 1..=maxw {
+        let mut ops = vec![Op::Quiet(true)];
+        // a random subset of stops through HTS / TBC
+        for _ in 0..r.range(0, 6) {
+            ops.push(api(Call::CursorToColumn(Some(r.range(1, w + 1)))));
+            ops.push(api(if r.chance(2, 3) { Call::SetTabStop } else { Call::ClearTabStop(*r.pick(&[None, Some(0)])) }));
+        }
+        if r.chance(1, 6) {
+            ops.push(api(Call::ClearTabStop(Some(3))));
+        }
+        if r.chance(1, 4) {
+            // width change between setting a stop and using it
+            ops.push(api(Call::Resize(None, Some(r.range(1, w + 10)))));
+        }
+        ops.push(Op::Quiet(false));
+        let wnow = w + 10;
+        for x in 0..=wnow.min(w + 10) {
+            ops.push(api(Call::CursorToColumn(Some(x + 1))));
+            if x % 5 == 4 {
+                ops.push(api(Call::Draw("w".into())));
+            }
+            ops.push(api(Call::Tab));
+            if x > w + 1 {
+                break;
+            }
+        }
+        for h in [None, Some(0), Some(1), Some(2), Some(3), Some(4), Some(9999)] {
+            ops.push(api(Call::CursorToColumn(Some(r.range(1, w)))));
+            ops.push(api(Call::SetTabStop));
+            ops.push(api(Call::ClearTabStop(h)));
+        }
+        ops.push(api(Call::Reset));
+        out.push(sess(format!("c18e{}", w), w, 2, ops));
+    }
+    out
+}
+
+fn enum_c08(tier: &str, r: &mut Rng) -> Vec<Session> {
+    let mut out = vec![];
+    let maxcode = counts(tier, 130, 9999);
+    let documented: Vec<u32> = vec![0, 1, 3, 4, 5, 7, 9, 22, 23, 24, 25, 27, 29, 30, 31, 32, 33, 34, 35, 36, 37, 38, 39,
+        40, 41, 42, 43, 44, 45, 46, 47, 48, 49, 90, 91, 92, 93, 94, 95, 96, 97, 100, 101, 102, 103, 104, 105, 106, 107];
+    let states: Vec<Vec<u32>> = vec![vec![], vec![1, 3, 4, 5, 7, 9, 31, 42], vec![38, 5, 200, 48, 2, 1, 2, 3]];
+    for (si, st) in states.iter().enumerate() {
+        let mut cands = vec![];
+        for c in 0..=maxcode {
+            cands.push(Call::Sgr(vec![c]));
+        }
+        if tier != "thorough" {
+            for _ in 0..60 {
+                cands.push(Call::Sgr(vec![r.range(0, 9999)]));
+            }
+        }
+        for key in [38u32, 48] {
+            for n in 0..=300 {
+                cands.push(Call::Sgr(vec![key, 5, n]));
+            }
+            for tail in [vec![], vec![5], vec![2], vec![2, 1], vec![2, 1, 2], vec![2, 255, 255, 255], vec![2, 256, 9999, 0],
+                         vec![3], vec![0], vec![5, 9999], vec![9999]] {
+                let mut v = vec![key];
+                v.extend(tail);
+                cands.push(Call::Sgr(v.clone()));
+                v.push(1);
+                cands.push(Call::Sgr(v));
+            }
+        }
+        let prefix = vec![api(Call::Sgr(st.clone())), api(Call::Draw("a".into()))];
+        out.push(sess(format!("c08s{}", si), 4, 2, fan_out(r, prefix, &cands, 1, true)));
+    }
+    // pairs / triples over the documented codes
+    let mut cands = vec![];
+    let npairs = counts(tier, 600, 0);
+    if npairs == 0 {
+        for a in &documented {
+            for b in &documented {
+                cands.push(Call::Sgr(vec![*a, *b]));
+            }
+        }
+    } else {
+        for _ in 0..npairs {
+            cands.push(Call::Sgr(vec![*r.pick(&documented), *r.pick(&documented)]));
+        }
+    }
+    for _ in 0..counts(tier, 600, 20000) {
+        let n = r.range(3, 7);
+        cands.push(Call::Sgr((0..n).map(|_| if r.chance(4, 5) { *r.pick(&documented) } else { r.range(0, 300) }).collect()));
+    }
+    out.push(sess("c08p".into(), 4, 2, fan_out(r, vec![api(Call::Sgr(vec![4, 35]))], &cands, 1, true)));
+    // through the parser only: parameters spelled with many digits / leading zeros
+    let mut ops = vec![api(Call::Sgr(vec![1, 31, 42])), Op::Snap];
+    for body in ["4294967296", "99999999999999999999", "3;99999999999999999999", "38;5;4294967296", "38;5;0000000000000000000000196",
+                 "00000000031", "38;2;00000255;4294967297;1", "0000", "1;00000000000000000000000000000000000000", "48;5;18446744073709551616"] {
+        ops.push(Op::Feed(format!("\x1b[{}m", body)));
+        ops.push(api(Call::Draw("x".into())));
+        ops.push(Op::Back);
+    }
+    out.push(sess("c08d".into(), 4, 2, ops));
+    out
+}
+
+fn enum_c12(tier: &str, r: &mut Rng) -> Vec<Session> {
+    let mut out = vec![];
+    let mut numbers: Vec<u32> = (0..=40).collect();
+    numbers.extend([96u32, 128, 160, 192, 224, 640, 800, 9999, 3 << 5, 20 << 5]);
+    if tier == "thorough" {
+        numbers = (0..=9999).collect();
+    } else {
+        for _ in 0..60 {
+            numbers.push(r.range(0, 9999));
+        }
+    }
+    let mut cands = vec![];
+    for n in &numbers {
+        for p in [false, true] {
+            cands.push(Call::SetMode(vec![*n], p));
+            cands.push(Call::ResetMode(vec![*n], p));
+        }
+    }
+    for _ in 0..counts(tier, 300, 6000) {
+        let (v, p) = gen::mode_list(r);
+        let mut v = v;
+        while v.len() < 2 && r.chance(1, 2) {
+            v.push(*r.pick(&[3u32, 5, 6, 7, 25, 4, 20]));
+        }
+        cands.push(if r.chance(1, 2) { Call::SetMode(v, p) } else { Call::ResetMode(v, p) });
+    }
+    let nstates = counts(tier, 4, 12);
+    for i in 0..nstates {
+        let cols = r.range(2, 8);
+        let lines = r.range(2, 5);
+        let mut prefix = fill_markers(cols, lines, i % 2 == 1);
+        match i % 4 {
+            1 => prefix.push(api(Call::SetMode(vec![5, 6], true))),
+            2 => {
+                prefix.push(api(Call::SetMargins(Some(2), Some(lines))));
+                prefix.push(api(Call::SetMode(vec![3], true)));
+                prefix.push(api(Call::Draw("abc".into())));
+            }
+            3 => {
+                prefix.push(api(Call::ResetMode(vec![7, 25], true)));
+                prefix.push(api(Call::SetMode(vec![4, 20], false)));
+                prefix.push(api(Call::SaveCursor));
+            }
+            _ => {}
+        }
+        prefix.push(api(Call::CursorPosition(Some(r.range(1, lines)), Some(r.range(1, cols)))));
+        let keep = if tier == "thorough" { 1 } else { 2 };
+        out.push(sess(format!("c12e{}", i), cols, lines, fan_out(r, prefix, &cands, keep, true)));
+    }
+    out
+}
+
+fn enum_c14(tier: &str, r: &mut Rng) -> Vec<Session> {
+    let mut out = vec![];
+    let k = counts(tier, 400, 8000);
+    let maxk = counts(tier, 2, 4);
+    for i in 0..k {
+        let cols = r.range(1, 8);
+        let lines = r.range(1, 6);
+        let mut ops = fill_markers(cols, lines, false);
+        let saves = r.range(0, maxk);
+        for _ in 0..saves {
+            for _ in 0..r.range(0, 3) {
+                let fam = *r.pick(&["move", "sgr", "charset", "mode", "margins"]);
+                ops.push(api(gen::call(r, cols, lines, fam)));
+            }
+            ops.push(api(Call::SaveCursor));
+        }
+        for _ in 0..r.range(0, 5) {
+            let fam = *r.pick(&["move", "sgr", "charset", "mode", "margins", "resize", "draw"]);
+            let c = gen::call(r, cols, lines, fam);
+            ops.push(api(c));
+        }
+        for _ in 0..r.range(0, maxk + 1) {
+            if r.chance(1, 2) {
+                ops.push(Op::Feed("\x1b8".into()));
+            } else {
+                ops.push(api(Call::RestoreCursor));
+            }
+        }
+        out.push(sess(format!("c14e{}", i), cols, lines, ops));
+    }
+    out
+}
+
+/// C20: 256 code points x 4 tables x {G0, G1} x {shifted in, out}, code points > 255, all designator finals.
+fn enum_c20(tier: &str, r: &mut Rng) -> Vec<Session> {
+    let mut out = vec![];
+    let mut n = 0;
+    for code in ["B", "0", "U", "V"] {
+        for mode in ["(", ")"] {
+            for shifted_out in [false, true] {
+                let mut ops = vec![Op::Quiet(true), api(Call::DefineCharset(code.into(), mode.into()))];
+                ops.push(api(if shifted_out { Call::ShiftOut } else { Call::ShiftIn }));
+                ops.push(Op::Snap);
+                ops.push(Op::Quiet(false));
+                for c in 0u32..256 {
+                    ops.push(api(Call::Draw(char::from_u32(c).unwrap().to_string())));
+                    ops.push(Op::Back);
+                }
+                for c in [256u32, 0x2500, 0x4e2d, 0x1f600, 0x301] {
+                    ops.push(api(Call::Draw(char::from_u32(c).unwrap().to_string())));
+                    ops.push(Op::Back);
+                }
+                n += 1;
+                out.push(sess(format!("c20t{}", n), 3, 1, ops));
+            }
+        }
+    }
+    // designator finals through the parser in both modes, and through the API
+    for utf8 in [false, true] {
+        let mut ops = vec![Op::Utf8(utf8)];
+        for fin in 0x20u32..=0x7e {
+            for m in ['(', ')'] {
+                ops.push(Op::Feed(format!("\x1b{}{}", m, char::from_u32(fin).unwrap())));
+                ops.push(Op::Feed("\x0eq\x0fq".into()));
+            }
+        }
+        out.push(sess(format!("c20d{}", utf8 as u32), 6, 1, ops));
+    }
+    let mut ops = vec![];
+    for fin in 0x20u32..=0x7e {
+        for m in ["(", ")", "*", "", "(("] {
+            ops.push(api(Call::DefineCharset(char::from_u32(fin).unwrap().to_string(), m.to_string())));
+        }
+    }
+    ops.push(api(Call::DefineCharset("".into(), "(".into())));
+    ops.push(api(Call::DefineCharset("BB".into(), "(".into())));
+    out.push(sess("c20api".into(), 4, 1, ops));
+    let _ = (tier, r);
+    out
+}
+
+/// Is the recogniser back in its ground state after `s`?  Model-free: a printable fed next is drawn at once.
+fn back_in_ground(s: &str, utf8: bool) -> bool {
+    use crate::exec::Runner;
+    let mut run = Runner::new(4, 1, false);
+    {
+        let mut t = run.tap.lock().unwrap();
+        t.events_only = true;
+    }
+    run.step(&Op::Utf8(utf8));
+    run.step(&Op::Feed(s.to_string()));
+    let before = run.tap.lock().unwrap().out.len();
+    run.step(&Op::Feed("z".into()));
+    let t = run.tap.lock().unwrap();
+    t.out[before..].iter().any(|l| l == "E draw 1 122")
+}
+
+/// C03: all strings over one representative per character class, exhaustive up to a bounded
+/// length with ground-state pruning; events-only sessions.
+fn enum_c03(tier: &str, r: &mut Rng) -> Vec<Session> {
+    let alphabet: Vec<char> = vec![
+        '\x07', '\x08', '\t', '\n', '\x0b', '\x0c', '\r', '\x0e', '\x0f', '\x18', '\x1a', '\x1b', '\u{9b}', '\u{9d}',
+        '\u{9c}', '0', '9', ';', '?', '$', ' ', '>', '#', '%', '(', ')', '[', ']', '\\', 'H', 'm', 'c', '8', 'R', 'p', 'P',
+        'Z', 'a', '\u{e9}', '\0', '\x7f',
+    ];
+    let maxlen = counts(tier, 3, 4);
+    let mut out = vec![];
+    for utf8 in [true, false] {
+        let mut frontier: Vec<String> = vec![String::new()];
+        let mut all: Vec<String> = vec![];
+        for len in 1..=maxlen {
+            let mut next = vec![];
+            for pre in &frontier {
+                for c in &alphabet {
+                    // from ground only sequence starters are interesting (text is covered by one char)
+                    if pre.is_empty() && !matches!(*c, '\x1b' | '\u{9b}' | '\u{9d}' | '\x07' | '\x0e' | 'a' | '\0') {
+                        continue;
+                    }
+                    let mut s2 = pre.clone();
+                    s2.push(*c);
+                    all.push(s2.clone());
+                    if len < maxlen && !back_in_ground(&s2, utf8) {
+                        next.push(s2);
+                    }
+                }
+            }
+            frontier = next;
+        }
+        // pack many strings into each session: one feed per string would leave the parser mid-sequence,
+        // so every string gets its own session (events only, cheap)
+        for (i, st) in all.iter().enumerate() {
+            let mut ops = vec![Op::Utf8(utf8)];
+            ops.push(Op::Feed(st.clone()));
+            ops.push(Op::Feed("z".into()));
+            out.push(Session { columns: 4, lines: 1, bytes: false, events_only: true, id: format!("c03x{}u{}", i, utf8 as u32), ops });
+        }
+    }
+    // random long strings and very long digit runs
+    for i in 0..counts(tier, 1500, 40000) {
+        let mut st = String::new();
+        for _ in 0..r.range(1, 14) {
+            match r.below(6) {
+                0 => st.push_str(&gen::garbage(r)),
+                1 => st.push_str(&"9".repeat(r.range(1, 40) as usize)),
+                _ => {
+                    let c = gen::call(r, 10, 5, "any");
+                    if let Some(t) = gen::render(r, &c) {
+                        st.push_str(&t);
+                    }
+                }
+            }
+        }
+        let mut ops = vec![Op::Utf8(r.chance(1, 2))];
+        for ch in gen::split_chars(r, &st) {
+            ops.push(Op::Feed(ch));
+        }
+        out.push(Session { columns: 4, lines: 1, bytes: false, events_only: true, id: format!("c03r{}", i), ops });
+    }
+    out
+}
+
+fn enum_c19(tier: &str, r: &mut Rng) -> Vec<Session> {
+    let alphabet: Vec<&str> = vec!["a", ";", "\\", "]", " ", "\u{e9}", "\x1bq", "\n", "\x1b[", "\u{4e2d}", "0", "\x0e"];
+    let maxlen = counts(tier, 2, 4);
+    let mut payloads: Vec<String> = vec![String::new()];
+    let mut frontier = vec![String::new()];
+    for _ in 0..maxlen {
+        let mut next = vec![];
+        for p in &frontier {
+            for a in &alphabet {
+                let mut q = p.clone();
+                q.push_str(a);
+                next.push(q);
+            }
+        }
+        payloads.extend(next.iter().cloned());
+        frontier = next;
+    }
+    for _ in 0..counts(tier, 200, 4000) {
+        let n = r.range(5, 60);
+        payloads.push((0..n).map(|_| *r.pick(&alphabet)).collect::<Vec<_>>().concat());
+    }
+    let mut out = vec![];
+    let codes = ["0", "1", "2", "3", "4", "9", "a", "R", "p", "P", "10", ";"];
+    for (i, p) in payloads.iter().enumerate() {
+        let intro = *r.pick(&["\x1b]", "\u{9d}"]);
+        let term = *r.pick(&["\x07", "\u{9c}", "\x1b\\"]);
+        let code = if r.chance(3, 4) { *r.pick(&["0", "1", "2"]) } else { *r.pick(&codes) };
+        let st = format!("{}{};{}{}", intro, code, p, term);
+        let mut ops = vec![api(Call::Draw("k".into()))];
+        if r.chance(1, 3) {
+            for ch in gen::split_chars(r, &st) {
+                ops.push(Op::Feed(ch));
+            }
+        } else {
+            ops.push(Op::Feed(st));
+        }
+        ops.push(Op::Feed("z".into()));
+        out.push(sess(format!("c19e{}", i), 6, 2, ops));
+    }
+    out
+}
+
+/// C11: structured byte strings, events only.
+fn enum_c11(tier: &str, r: &mut Rng) -> Vec<Session> {
+    let mut out = vec![];
+    let mut strings: Vec<Vec<u8>> = vec![];
+    for a in 0u32..256 {
+        strings.push(vec![a as u8]);
+    }
+    // lead x first-continuation classes
+    let conts: [u8; 12] = [0x00, 0x41, 0x7f, 0x80, 0x8f, 0x90, 0x9f, 0xa0, 0xbf, 0xc0, 0xe0, 0xff];
+    for lead in 0xc0u32..=0xff {
+        for c1 in conts {
+            strings.push(vec![lead as u8, c1]);
+            for c2 in [0x41u8, 0x80, 0xbf, 0xc2] {
+                strings.push(vec![lead as u8, c1, c2]);
+                if lead >= 0xf0 {
+                    for c3 in [0x41u8, 0x80, 0xbf] {
+                        strings.push(vec![lead as u8, c1, c2, c3]);
+                    }
+                }
+            }
+        }
+    }
+    if tier == "thorough" {
+        for a in 0x80u32..256 {
+            for b in 0u32..256 {
+                strings.push(vec![a as u8, b as u8]);
+            }
+        }
+    }
+    for (i, st) in strings.iter().enumerate() {
+        // every split point, plus a trailing ASCII byte to flush
+        let cut = r.below(st.len() as u32 + 1) as usize;
+        let mut ops = vec![];
+        ops.push(Op::FeedB(st[..cut].to_vec()));
+        ops.push(Op::FeedB(st[cut..].to_vec()));
+        ops.push(Op::FeedB(b"Z".to_vec()));
+        out.push(Session { columns: 4, lines: 1, bytes: true, events_only: true, id: format!("c11x{}", i), ops });
+    }
+    // mode switches between chunks
+    for i in 0..counts(tier, 300, 6000) {
+        let mut ops = vec![];
+        for _ in 0..r.range(2, 8) {
+            match r.below(5) {
+                0 => ops.push(Op::Charset((*r.pick(&["@", "G", "8", "x", ""])).into())),
+                _ => {
+                    let b = gen::utf8_garbage(r);
+                    for ch in gen::split_bytes(r, &b) {
+                        ops.push(Op::FeedB(ch));
+                    }
+                }
+            }
+        }
+        ops.push(Op::FeedB(b"Z".to_vec()));
+        out.push(Session { columns: 6, lines: 2, bytes: true, events_only: r.chance(1, 2), id: format!("c11m{}", i), ops });
+    }
+    out
 }
 
 pub fn generate(prop: &str, tier: &str, seed: u64) -> Vec<Session> {
@@ -185,9 +839,69 @@ pub fn generate(prop: &str, tier: &str, seed: u64) -> Vec<Session> {
     }
     match prop {
         "C05" => out.extend(enum_c05(tier, &mut r)),
+        "C06" => out.extend(enum_c06(tier, &mut r)),
+        "C07" => out.extend(enum_c07(tier, &mut r)),
+        "C08" => out.extend(enum_c08(tier, &mut r)),
+        "C12" => out.extend(enum_c12(tier, &mut r)),
+        "C13" => out.extend(enum_c13(tier, &mut r)),
+        "C14" => out.extend(enum_c14(tier, &mut r)),
+        "C16" => out.extend(enum_c16(tier, &mut r)),
+        "C18" => out.extend(enum_c18(tier, &mut r)),
+        "C20" => out.extend(enum_c20(tier, &mut r)),
+        "C03" => out.extend(enum_c03(tier, &mut r)),
+        "C19" => out.extend(enum_c19(tier, &mut r)),
+        "C11" => out.extend(enum_c11(tier, &mut r)),
+        "C01" => {
+            // bigger geometries incl. 140x40 and the 132-column switch, hostile streams
+            for i in 0..counts(tier, 40, 800) {
+                let mut rr = r.fork();
+                let by = rr.chance(1, 2);
+                let mut s = gen::session(&mut rr, format!("C01big{}", i), "any", 40, 2, by);
+                s.columns = *rr.pick(&[80u32, 132, 140, 1, 2]);
+                s.lines = *rr.pick(&[24u32, 40, 1, 2]);
+                out.push(s);
+            }
+            out.extend(enum_c11(tier, &mut r).into_iter().take(counts(tier, 400, 4000) as usize));
+        }
+        "C09" | "C17" => {
+            out.extend(enum_c16(tier, &mut r).into_iter().take(counts(tier, 60, 2000) as usize));
+            out.extend(enum_c12(tier, &mut r).into_iter().take(2));
+            // every region x cursor row x scrolling operation, every cursor position x movement
+            let c6 = enum_c06(tier, &mut r);
+            let step = if tier == "thorough" { 1 } else { 3 };
+            out.extend(c6.into_iter().step_by(step));
+            let c5 = enum_c05(tier, &mut r);
+            out.extend(c5.into_iter().step_by(step));
+            out.extend(enum_c18(tier, &mut r).into_iter().step_by(4));
+            out.extend(enum_c08(tier, &mut r).into_iter().take(1));
+        }
+        "C04" | "C10" => {
+            // draw-heavy sessions on tiny screens with every mode combination
+            for i in 0..counts(tier, 300, 6000) {
+                let cols = r.range(1, 5);
+                let lines = r.range(1, 4);
+                let mut ops = vec![];
+                if r.chance(1, 2) { ops.push(api(Call::SetMode(vec![4], false))); }
+                if r.chance(1, 3) { ops.push(api(Call::ResetMode(vec![7], true))); }
+                if r.chance(1, 3) { ops.push(api(Call::SetMode(vec![20], false))); }
+                if r.chance(1, 4) { ops.push(api(Call::SetMode(vec![5], true))); }
+                if r.chance(1, 3) && lines >= 2 { ops.push(api(Call::SetMargins(Some(1), Some(lines.min(2))))); }
+                if r.chance(1, 4) { ops.push(api(Call::ShiftOut)); }
+                if r.chance(1, 3) { ops.push(api(Call::Sgr(gen::sgr_list(&mut r)))); }
+                for _ in 0..r.range(1, 8) {
+                    match r.below(8) {
+                        0 => ops.push(api(Call::CursorPosition(Some(r.range(1, lines)), Some(r.range(1, cols))))),
+                        1 => ops.push(api(Call::Display)),
+                        2 => ops.push(api(Call::CarriageReturn)),
+                        _ => ops.push(api(Call::Draw(gen::text(&mut r, 5)))),
+                    }
+                }
+                ops.push(api(Call::Display));
+                out.push(sess(format!("{}d{}", prop, i), cols, lines, ops));
+            }
+        }
         _ => {}
     }
-    let _ = fill_markers;
     out
 }
 
@@ -307,7 +1021,7 @@ fn stream_session(r: &mut Rng, id: String, bytes: bool, nops: u32) -> Session {
     } else {
         ops.push(Op::Feed(text));
     }
-    Session { columns: cols, lines, bytes, id, ops }
+    Session { columns: cols, lines, bytes, events_only: false, id, ops }
 }
 
 fn captured_sessions() -> Vec<(String, Vec<u8>)> {
@@ -331,7 +1045,7 @@ pub fn meta(prop: &str, tier: &str, seed: u64) -> String {
     let mut n = 0u32;
     let mut nfail = 0u32;
     let mut sample = String::new();
-    let mut fail = |out: &mut String, what: &str, a: &Session, b: &Session| {
+    let fail = |out: &mut String, what: &str, a: &Session, b: &Session| {
         out.push_str(&format!("METAFAIL {} {}\n", prop, what));
         out.push_str("#A\n");
         out.push_str(&a.text());
@@ -396,7 +1110,7 @@ pub fn meta(prop: &str, tier: &str, seed: u64) -> String {
             // captured sessions under random chunkings
             let reps = counts(tier, 3, 40);
             for (name, data) in captured_sessions() {
-                let base = Session { columns: 80, lines: 24, bytes: true, id: format!("cap-{}", name), ops: vec![Op::FeedB(data)] };
+                let base = Session { columns: 80, lines: 24, bytes: true, events_only: false, id: format!("cap-{}", name), ops: vec![Op::FeedB(data)] };
                 let whole = final_obs(&base, true, true);
                 for _ in 0..reps {
                     let re = rechunk(&mut r, &base, 1);
@@ -493,7 +1207,7 @@ pub fn meta(prop: &str, tier: &str, seed: u64) -> String {
                 }
                 let just_reset = a.clone();
                 a.ops.extend(t_ops.clone());
-                let fresh0 = Session { columns: cols, lines, bytes: false, id: format!("C15f{}", i), ops: vec![] };
+                let fresh0 = Session { columns: cols, lines, bytes: false, events_only: false, id: format!("C15f{}", i), ops: vec![] };
                 let fresh = Session { ops: t_ops.clone(), ..fresh0.clone() };
                 n += 1;
                 // (1) right after RIS: equals a new screen, every row dirty
